@@ -45,6 +45,7 @@ STATUS_OF = {X.NEW: FOrdStatus.NEW, X.PARTIAL: FOrdStatus.PARTIALLY_FILLED, X.FI
 
 class World:
     def __init__(self, root="ord", price=100.0, qty=10.0):
+        self.root = root
         self.o = FIXNewOrderSingle(root, "T", "1", price, qty)
         self.ex = X.Exchange()
         self.to_ex = []  # request FIXMessages in flight
@@ -128,6 +129,10 @@ def check_step(w, bad):
         cid, orig = m.get(FTag.ClOrdID, None), m.get(FTag.OrigClOrdID, None)
         if cid in w.sent_ids:
             bad(f"clordid-reused/{name}", f"request would reuse ClOrdID {cid!r} (already sent: {w.sent_ids})")
+        # "with the same root": the order's ClOrdIDs are <root>--<n> for the root it was created with
+        root = w.root
+        if not (isinstance(cid, str) and cid.startswith(root + "--") and cid[len(root) + 2:].isdigit()):
+            bad(f"clordid-other-root/{name}", f"request would use ClOrdID {cid!r}, which is not of the form {root + '--<n>'!r} (ids sent so far: {w.sent_ids})")
         # the live id at the exchange as far as the client can know it: answers still in flight excluded
         if not w.to_cl and w.ex.known and orig != w.ex.live:
             bad(f"wrong-origclordid/{name}", f"request refers to OrigClOrdID {orig!r} but the order is live at the exchange as {w.ex.live!r}")
